@@ -250,7 +250,10 @@ def normal_mesh(mr):
     else:
         p, t = U.tet_cubes(1, 6)
     p = np.array(p, dtype=float) * 8
-    p += rng.integers(-2, 3, size=p.shape)                 # every vertex displaced: cells stay convex (|d| <= 2 of 8)
+    if not mr.get('order2'):
+        p += rng.integers(-2, 3, size=p.shape)             # every vertex displaced: cells stay convex (|d| <= 2 of 8)
+    # (curved cells keep their vertices and get mildly displaced mid-side nodes: the convergence of the library's Newton
+    #  inversion on strongly distorted curved cells is not a subject of C01, DESIGN section 6)
     if mr.get('order2'):
         p = p / 8.0        # unit-size cells: the Newton inversion of curved cells uses an absolute tolerance
     m = U.make(kind, p, t)
@@ -259,7 +262,7 @@ def normal_mesh(mr):
         m2 = cls.from_mesh(m)
         d = m2.doflocs.copy()
         nv = m.p.shape[1]
-        d[:, nv:] += rng.integers(-2, 3, size=d[:, nv:].shape) / 32.0
+        d[:, nv:] += rng.integers(-2, 3, size=d[:, nv:].shape) / 64.0
         m = replace(m2, doflocs=d)
     return m
 
